@@ -45,7 +45,7 @@ ASSUMPTIONS = ["mc/refsem.py states miasm's documented operator semantics ('/' a
 WIDE_QUICK = (8, 16, 32, 64, 128)
 WIDE_THOROUGH = (5, 7, 8, 13, 16, 31, 32, 33, 63, 64, 65, 127, 128)
 PTR_WIDTHS = (8, 16, 32)
-DATA_QUICK = (8, 16, 32, 64, 4, 12)
+DATA_QUICK = (8, 16, 32, 12)
 DATA_THOROUGH = (8, 16, 24, 32, 64, 128, 1, 4, 12, 20, 33)
 MAXW = 128
 
@@ -80,12 +80,12 @@ def plan(quick):
         p.append(("z3", False, "d1", (T.SMALL, w), 4))
     if quick:
         for w in (1, 2):
-            p += [("z3", False, "d2", ((1, 2), w, False, 1, "1c", k, 8), 1) for k in range(8)]
+            p += [("z3", False, "d2", ((1, 2), w, "one", 2, "1c", k, 4), 1) for k in range(4)]
         wide, data = WIDE_QUICK, DATA_QUICK
     else:
         for w in (1, 2, 3):
-            p += [("z3", False, "d2", ((1, 2, 3), w, True, 2, "3c", k, 32), 1) for k in range(32)]
-        p += [("z3", False, "d2", (T.SMALL, 4, False, 2, "3c", k, 32), 1) for k in range(32)]
+            p += [("z3", False, "d2", ((1, 2, 3), w, "full", 2, "3c", k, 32), 1) for k in range(32)]
+        p += [("z3", False, "d2", (T.SMALL, 4, "core", 2, "3c", k, 32), 1) for k in range(32)]
         wide, data = WIDE_THOROUGH, DATA_THOROUGH
     for w in wide:
         p.append(("z3", False, "wide", (w, MAXW, not quick), 2 if quick else 8))
